@@ -67,7 +67,7 @@ func (g *GenCfg) genVD(t *rapid.T, depth int) *VD {
 	if depth >= g.MaxDepth {
 		w = map[string]int{}
 		for k, v := range g.ValW {
-			if k != "arr" && k != "map" && k != "cmap" && k != "barr" {
+			if k != "arr" && k != "map" && k != "cmap" && k != "barr" && k != "bmap" {
 				w[k] = v
 			}
 		}
@@ -94,6 +94,8 @@ func (g *GenCfg) genVD(t *rapid.T, depth int) *VD {
 		return &VD{K: "some", W: rapid.IntRange(1, 3).Draw(t, "sw"), E: in}
 	case "barr":
 		return &VD{K: "barr", N: rapid.Uint64Range(0, 999).Draw(t, "bn"), L: rapid.IntRange(0, 24).Draw(t, "bl")}
+	case "bmap":
+		return &VD{K: "bmap", N: rapid.Uint64Range(0, 999).Draw(t, "bmn"), L: rapid.IntRange(0, 12).Draw(t, "bml")}
 	case "arr", "map", "cmap":
 		l := rapid.IntRange(0, g.MaxElems).Draw(t, "cl")
 		if k == "cmap" && rapid.IntRange(0, 7).Draw(t, "manyfields") == 0 {
